@@ -29,6 +29,7 @@ def kv_universe():
         E("p2", "A", 30000, 20, [["d", "a"]]),
         E("d1", "A", 5, 30, [["e", "t1"], ["e", "p2"], ["e", "n0"]]),
         E("g1", "B", 1, 5, [["expiration", "t14"], ["t", "a"]]),
+        E("tl", "B", 1, 25, [["t", "a"], ["r", "vlong"], ["p", "A"], ["t", "ab"]]),     # one index key is too long for LMDB
         E("m0", "A", 0, 10, [["t", "a"]]),
         E("m1", "A", 0, 20, []),
     ]
